@@ -34,6 +34,7 @@ class C48(Prop):
         'CylcModel.C48.inv_preserved',
         'CylcModel.C48.fresh_number',
         'CylcModel.C48.runN_latest',
+        'CylcModel.C48.runN_survives_other_ops',
         'CylcModel.C48.successive_installs',
         'CylcModel.C48.numbers_increase_without_clean',
         'CylcModel.C48.never_reissued_counterexample',
@@ -45,7 +46,7 @@ class C48(Prop):
         'install of any kind never changes an existing run directory - it either changes nothing or appends one new '
         'directory whose name was unused (no_overwrite, in every state); while the user does not re-point runN, the '
         'invariant "run directories distinct, runN absent or pointing to the existing highest-numbered run" holds after '
-        'every prefix (inv_preserved, runN_latest); under it a successful numbered install gets max(existing)+1, above '
+        'every prefix (inv_preserved, runN_latest); clean / reinstall never remove or move a runN link whose target still exists (runN_survives_other_ops, every state); under the invariant a successful numbered install gets max(existing)+1, above '
         'every existing number, and runN then points to it (fresh_number); n successive installs give run1..run n with '
         'runN -> run n (successive_installs); without clean operations issued numbers strictly increase '
         '(numbers_increase_without_clean). partial w.r.t. the strictest reading of "without reusing a number": over a '
@@ -144,6 +145,7 @@ class C48(Prop):
             mk({'op': 'flat'}, I, N('a'), {'op': 'flat'}, {'op': 'reinstallFlat'}, {'op': 'cleanAll'}, I),
             mk(I, {'op': 'reinstall', 'run': 'run1'}, I, {'op': 'reinstall', 'run': 'run1'}, {'op': 'reinstall', 'run': 'run7'}),
             mk(I, N('a'), {'op': 'flat'}, {'op': 'cleanAll'}, {'op': 'cleanAll'}, N('a'), I),
+            mk(I, I, I, C('run1'), I, C('run2'), {'op': 'reinstall', 'run': 'run3'}, C('run7'), I),   # cleaning older runs keeps runN
             mk(*([I] * 10 + [{'op': 'rmN'}, I, C('run11'), C('run3'), I, I])),      # two-digit numbers without a runN link
         ]
 
